@@ -11,6 +11,9 @@ argv[1] = behaviour:
   close_stdin       closes stdin, then sleeps (still holds stdout)
   slow_start:<s>    sleeps s seconds, then behaves well
   sigterm_slow:<s>  on SIGTERM keeps running s seconds before exiting
+  backlog:<n>:<kind> right after starting writes n notifications followed by ONE message that carries an id (kind =
+                    response: an answer to a request nobody is waiting for any more; request: a server->client ping),
+                    then behaves well
   stderr_burst:<n>  writes n bytes of diagnostics to stderr (non-blocking, as much as fits), then behaves well and
                     keeps adding a line of diagnostics per request
 """
@@ -129,6 +132,16 @@ elif beh.startswith("stderr_burst:"):
         except (BlockingIOError, OSError):
             time.sleep(0.01)
     out({"jsonrpc": "2.0", "method": "notifications/ready"})
+    serve()
+elif beh.startswith("backlog:"):
+    _, n, kind = beh.split(":")
+    out({"jsonrpc": "2.0", "method": "notifications/ready"})
+    for k in range(int(n)):
+        out({"jsonrpc": "2.0", "method": "notifications/progress", "params": {"progressToken": "old", "progress": k}})
+    if kind == "response":
+        out({"jsonrpc": "2.0", "id": "given-up-long-ago", "result": {"late": True}})
+    else:
+        out({"jsonrpc": "2.0", "id": "srv-1", "method": "ping"})
     serve()
 elif beh.startswith("slow_start:"):
     time.sleep(float(beh.split(":")[1]))
